@@ -228,6 +228,8 @@ fn gen_case(r: &mut StdRng) -> Case {
         0 => vec!["a.txt".into()],
         1 => vec![".".into(), "sub".into(), "a.txt.txtpp".into()],
         2 => vec!["".into()],
+        // the empty selection (library API): nothing is scheduled at all
+        3 if r.gen_bool(0.3) => vec![],
         _ => vec![".".into()],
     };
     // directory links: to a sibling, to the parent, to the directory itself
@@ -276,7 +278,7 @@ fn check(ctx: &mut Ctx, c: &Case) {
     let shape = format!("threads={}", if c.threads == 0 { "0" } else { "n" });
     match &o.verdict {
         Verdict::Deadlock => ctx.violation(format!("C18:hang:{}", crate::run::mode_name(&c.mode)), "the coordinator can never leave its loop (logical deadlock: nothing in flight, all results received, done != total)", c.json()),
-        Verdict::HangInDrop => ctx.violation(format!("C18:hang-after-error:{}", crate::run::mode_name(&c.mode)), "after a reported error the remaining workers block forever in the result-channel send while Drop joins the pool: the run never returns", c.json()),
+        Verdict::HangInDrop => ctx.violation(format!("C18:hang-after-error:{}", crate::run::mode_name(&c.mode)), "Txtpp::run can never return: state unchanged for 10 s with nothing left that could change it (workers blocked in the result-channel send while Drop joins the pool after an error, or everything done and received and the coordinator still inside its loop / Drop)", c.json()),
         Verdict::Livelock => ctx.violation(format!("C18:hang:endless-directory-rescan:{}", if c.symlinks.is_empty() { "no-symlink" } else { "symlink-cycle" }), format!("one directory was queued for scanning more than 64 times in a single run (inputs {:?}, recursive {}, symbolic links {:?}): the run never finishes", c.inputs, c.recursive, c.symlinks), c.json()),
         Verdict::StuckTask => ctx.violation(format!("C18:hang:worker-stuck:{}", crate::run::mode_name(&c.mode)), "a worker task showed no progress for 20 s; the coordinator waits for its result forever", c.json()),
         Verdict::MainPanic(m) => ctx.violation(format!("C18:panic:main:{shape}"), format!("the thread calling Txtpp::run panicked: {m}; {:?}", o.panics), c.json()),
